@@ -145,8 +145,8 @@ impl<'c, 's> Run<'c, 's> {
     }
 
     fn c09_in_domain(&self, b: &[u8], v: &RefVerdict) -> bool {
-        if matches!(v, RefVerdict::Short) {
-            return false;
+        if matches!(v, RefVerdict::Short) || b.len() > 259 {
+            return false; // too short for the headers / longer than the SMBus maximum
         }
         let p = parse(b);
         if p.hdr_ok && !p.ic && p.control && !p.rq && matches!(p.cmd, 0x02 | 0x08 | 0x09) {
@@ -271,11 +271,9 @@ impl<'c, 's> Run<'c, 's> {
                 }
             }
             (Expect::Ok { .. }, Dec::Err { err, .. }) => Some(format!("rejected:{}", err.name())),
-            (Expect::ErrCc(c), Dec::Err { mtype, err: ErrKind::Cc(c2) }) => {
+            (Expect::ErrCc(c), Dec::Err { err: ErrKind::Cc(c2), .. }) => {
                 if c2 != c {
                     Some("wrong-completion-code".into())
-                } else if mtype != T_CONTROL {
-                    Some("wrong-message-type".into())
                 } else {
                     None
                 }
@@ -295,8 +293,28 @@ impl<'c, 's> Run<'c, 's> {
     /// decode-only call on node `ni` (A7, snooping): must not change anything
     pub fn decode_only(&mut self, ni: usize, b: &[u8], fi: Option<usize>, cause: &'static str) -> Dec {
         let (off, end) = self.stage(ni, b, true);
+        let eids0 = {
+            use libmctp::mctp_traits::SMBusMCTPRequestResponse;
+            let nd = &self.nodes[ni];
+            (nd.ctx.get_request().get_eid(), nd.ctx.get_response().get_eid())
+        };
         let d = real::decode(&self.nodes[ni].ctx, &self.nodes[ni].rxbuf[off..end]);
         self.st.lib_calls += 1;
+        if !pec_ok(b) {
+            use libmctp::mctp_traits::SMBusMCTPRequestResponse;
+            let eids1 = {
+                let nd = &self.nodes[ni];
+                (nd.ctx.get_request().get_eid(), nd.ctx.get_response().get_eid())
+            };
+            self.eval(Prop::C02, "C02/bad-pec-has-no-effect");
+            if eids1 != eids0 {
+                self.viol(
+                    Prop::C02,
+                    "C02/effect/eid".into(),
+                    format!("EID changed from {:02x?} to {:02x?} by decode_packet on bad-PEC input {}", eids0, eids1, hex(b)),
+                );
+            }
+        }
         if pec_ok(b) {
             let node = &mut self.nodes[ni];
             node.twin_rx[off..end].copy_from_slice(&b[..end - off]);
@@ -322,6 +340,10 @@ impl<'c, 's> Run<'c, 's> {
             match first {
                 None => first = Some((nj, dj)),
                 Some((n0, d)) => {
+                    let v = ref_decode(b);
+                    if !self.c09_in_domain(b, &v) {
+                        continue;
+                    }
                     self.eval(Prop::C09, "C09/context-independence");
                     if d != dj && !d.is_panic() && !dj.is_panic() {
                         self.viol(
@@ -357,6 +379,40 @@ impl<'c, 's> Run<'c, 's> {
         self.ev("deliver", &[ni as u64, fi.map(|f| f as u64).unwrap_or(9999)], &b);
 
         let (off, end) = self.stage(ni, &b, true);
+        // how much of its response buffer the driver offers: all of it, exactly what the answer
+        // needs (Success answers of in-domain requests have a length fixed by C07), or — for
+        // anything that is not an accepted request and so must not be answered — next to nothing
+        let full = self.nodes[ni].resp.len();
+        let mut rcap = full;
+        if !self.draining {
+            let v0 = ref_decode(&b);
+            let pr0 = parse(&b);
+            let is_request = matches!(v0, RefVerdict::Accept { mtype, .. } if mtype == T_CONTROL) && pr0.rq;
+            let pick = self.ch.choose(8);
+            if is_request {
+                let sets = &self.nodes[ni].cfg.vplain;
+                let need = match pr0.cmd {
+                    0x01 if n == 14 && b[11] <= 1 => Some(16),
+                    0x02 if n == 12 => Some(16),
+                    0x03 if n == 12 => Some(29),
+                    0x04 if n == 13 => Some(18),
+                    0x05 if n == 12 => Some(14 + self.nodes[ni].cfg.types.len()),
+                    0x06 if n == 13 && (b[11] as usize) < sets.len() => Some(if sets[b[11] as usize].0 == 1 { 21 } else { 19 }),
+                    _ => None,
+                };
+                if let Some(k) = need {
+                    if pick == 7 {
+                        rcap = k.min(full);
+                        self.st.probe("response-buffer-exact-fit");
+                    } else if pick == 6 {
+                        rcap = (k + 1).min(full);
+                    }
+                }
+            } else if pick == 7 {
+                rcap = self.ch.choose(13) as usize;
+                self.st.probe("response-buffer-tiny-for-non-request");
+            }
+        }
         let mode = self.nodes[ni].cfg.call_mode;
         let mut d = Dec::Panic(PanicKind::Other);
         if mode == 0 {
@@ -364,8 +420,26 @@ impl<'c, 's> Run<'c, 's> {
         }
         let (p, rlen) = {
             let node = &mut self.nodes[ni];
-            real::process(&node.ctx, &node.rxbuf[off..end], &mut node.resp)
+            real::process(&node.ctx, &node.rxbuf[off..end], &mut node.resp[..rcap])
         };
+        if p.is_panic() && rcap < 64 {
+            // a response buffer under 64 bytes is outside C10's claim, and nothing else can be said
+            // about a call that did not return: forget what we knew about this node's EID
+            self.st.probe("panic-with-small-response-buffer-ignored");
+            let node = &mut self.nodes[ni];
+            node.m_eid_req = None;
+            node.m_eid_resp = None;
+            let tw_eids = {
+                use libmctp::mctp_traits::SMBusMCTPRequestResponse;
+                (node.ctx.get_request().get_eid(), node.ctx.get_response().get_eid())
+            };
+            {
+                use libmctp::mctp_traits::SMBusMCTPRequestResponse;
+                node.twin.get_request().set_eid(tw_eids.0);
+                node.twin.get_response().set_eid(tw_eids.1);
+            }
+            return;
+        }
         if mode == 1 {
             d = real::decode(&self.nodes[ni].ctx, &self.nodes[ni].rxbuf[off..end]);
         } else if mode == 2 {
@@ -388,7 +462,7 @@ impl<'c, 's> Run<'c, 's> {
                 if mode == 0 {
                     let _ = real::decode(&node.twin, &node.twin_rx[off..end]);
                 }
-                let (pt, rt) = real::process(&node.twin, &node.twin_rx[off..end], &mut node.twin_resp);
+                let (pt, rt) = real::process(&node.twin, &node.twin_rx[off..end], &mut node.twin_resp[..rcap]);
                 if mode == 1 {
                     let _ = real::decode(&node.twin, &node.twin_rx[off..end]);
                 }
@@ -471,7 +545,7 @@ impl<'c, 's> Run<'c, 's> {
             let is_req = matches!(d, Dec::Ok { mtype, .. } if mtype == T_CONTROL) && n > 9 && b[9] & 0x80 != 0;
             match rlen {
                 Some(l) => {
-                    if !is_req {
+                    if !is_req && mode != 2 {
                         self.viol(
                             Prop::C11,
                             "C11/response-for-non-request".into(),
@@ -595,7 +669,8 @@ impl<'c, 's> Run<'c, 's> {
             let (mq, ms) = (self.nodes[ni].m_eid_req, self.nodes[ni].m_eid_resp);
             if resp.len() >= 14 {
                 if let (Some(q), Some(s)) = (mq, ms) {
-                    if resp[11] != 0 || (resp[12] != s && resp[12] != q) {
+                    // the statement constrains the EID a Get Endpoint ID response *reports*
+                    if resp[11] == 0 && resp[12] != s && resp[12] != q {
                         self.viol(
                             Prop::C13,
                             "C13/get-eid-answer/eid".into(),
@@ -608,15 +683,31 @@ impl<'c, 's> Run<'c, 's> {
             }
         }
         // ---- in-domain requests must be answered at all (C13 / C14 / C15 say "is answered with ...")
-        if p.is_ok() && rlen.is_none() && pr.control && pr.rq && pec && pr.hdr_ok && !pr.ic {
+        // only requests of the shape this library itself emits: framed consistently, addressed to this
+        // node, datagram and reserved bits clear, exact request length (what a responder does with a
+        // datagram or a mis-addressed request is left open by the properties)
+        let plain_request = pr.control
+            && pr.rq
+            && pec
+            && pr.hdr_ok
+            && !pr.ic
+            && n >= 12
+            && b[1] == 0x0F
+            && b[2] as usize == n - 4
+            && b[0] == own << 1
+            && b[5] == own
+            && b[3] & 1 == 1
+            && b[6] == b[3] >> 1
+            && b[7] & 0xF0 == 0xC0
+            && b[9] & 0x60 == 0;
+        if p.is_ok() && rlen.is_none() && plain_request {
             let sets = self.nodes[ni].cfg.vplain.len();
             let missing: Option<(Prop, &'static str)> = match pr.cmd {
                 0x01 if n == 14 && (b[11] == 0 || b[11] == 1) && (0x01..=0xFE).contains(&b[12]) => Some((Prop::C13, "C13/assign-answer/missing")),
                 0x01 if n == 14 && b[11] == 3 => Some((Prop::C13, "C13/discovered-flag/missing")),
-                0x02 => Some((Prop::C13, "C13/get-eid-answer/missing")),
-                0x03 => Some((Prop::C15, "C15/uuid/missing")),
+                0x03 if n == 12 => Some((Prop::C15, "C15/uuid/missing")),
                 0x04 if n == 13 => Some((Prop::C15, "C15/version/missing")),
-                0x05 => Some((Prop::C15, "C15/message-types/missing")),
+                0x05 if n == 12 => Some((Prop::C15, "C15/message-types/missing")),
                 0x06 if n == 13 && (b[11] as usize) < sets => Some((Prop::C14, "C14/answer/missing")),
                 _ => None,
             };
@@ -627,6 +718,29 @@ impl<'c, 's> Run<'c, 's> {
         }
         self.check_state(ni, cause);
 
+        if let Some(l) = rlen {
+            // C04 on a packet the library generated itself: framing, byte count, reported length, probe
+            if l == resp.len() && l >= 4 {
+                self.eval(Prop::C04, "C04/generated-response-framing");
+                let probe_ok = self.get_length_staged(ni, &resp) == Len::Ok(l);
+                let chk: [(&str, bool); 5] = [
+                    ("write-bit", resp[0] & 1 == 0),
+                    ("command-code", resp[1] == 0x0F),
+                    ("byte-count", resp[2] as usize == l - 4),
+                    ("src-addr", resp[3] == (own << 1) | 1),
+                    ("probe", probe_ok),
+                ];
+                for (name, ok) in chk {
+                    if !ok {
+                        self.viol(
+                            Prop::C04,
+                            format!("C04/generated-response/{}", name),
+                            format!("node{} (addr {:#04x}) generated {} for request {}", ni, own, hex(&resp), hex(&b)),
+                        );
+                    }
+                }
+            }
+        }
         if accepted_req {
             self.c07_process(ni, &b, &resp);
             self.c12_wire(ni, own, &b, &resp, n_sets);
@@ -731,12 +845,9 @@ impl<'c, 's> Run<'c, 's> {
             }
             3 => (len != 29).then_some("uuid-length"),
             4 => (req.len() == 13 && (len != 18 || r[12..17] != [1, 0xF1, 0xF3, 0xF1, 0x00])).then_some("version-entry"),
-            5 => (r[12] as usize != len - 14).then_some("message-type-count-vs-list"),
-            _ => {
-                let f = &r[13..len - 1];
-                let ok = !f.is_empty() && ((f[0] == 0 && f.len() == 5) || (f[0] == 1 && f.len() == 7));
-                (!ok).then_some("vendor-field-shape")
-            }
+            5 => (len < 14 || r[12] as usize != len - 14).then_some("message-type-count-vs-list"),
+            // next selector then the vendor ID field (its shape is C14's matter)
+            _ => (len < 14).then_some("vendor-answer-without-selector"),
         };
         if let Some(w) = bad {
             self.viol(
